@@ -86,6 +86,12 @@ type cropCase struct {
 	Layout  mp4build.ProgLayout `json:"layout"`
 	DurMS   uint64              `json:"durMS"`
 	NoAvoid bool                `json:"noAvoid,omitempty"` // ignore avoidKnown (reproducers of known findings)
+	// Gap > 0: the input file is written sparse: Gap bytes (a hole, zeros) are inserted into the mdat payload in
+	// front of the chunk Layout.ChunkOrder[GapAtChunk], size field and co64 offsets patched (mp4build.Inflate): chunk
+	// offsets around and beyond 2^31 / 2^32 in a file of several GiB that costs no disk space. The model, and with
+	// it everything the output has to hold, is unchanged.
+	Gap        uint64 `json:"gap,omitempty"`
+	GapAtChunk int    `json:"gapAtChunk,omitempty"`
 }
 
 func (c *cropCase) avoid(name string) bool { return !c.NoAvoid && avoidKnown[name] }
@@ -287,7 +293,29 @@ func evalCrop(c *cropCase) (fail *harness.Fail, info evalInfo) {
 	}
 	defer os.RemoveAll(dir)
 	inPath, outPath := filepath.Join(dir, "in.mp4"), filepath.Join(dir, "out.mp4")
-	if err := os.WriteFile(inPath, file, 0o644); err != nil {
+	if c.Gap > 0 {
+		prefix, suffix, err := mp4build.Inflate(file, truth, c.Layout, c.GapAtChunk, c.Gap)
+		if err != nil {
+			return harness.Failf("harness|c10|bad-case", "%v", err), info
+		}
+		fd, err := os.Create(inPath)
+		if err == nil {
+			_, err = fd.WriteAt(prefix, 0)
+		}
+		if err == nil {
+			_, err = fd.WriteAt(suffix, int64(len(prefix))+int64(c.Gap)) // the gap stays a hole
+		}
+		if err == nil {
+			err = fd.Close()
+		}
+		if err != nil {
+			return harness.Failf("harness|c10|tmpdir", "%v", err), info
+		}
+		info.class("input-sparse-file-with-inflated-mdat")
+		if uint64(len(prefix))+c.Gap >= 1<<32 {
+			info.class("input-chunk-offsets-beyond-2^32")
+		}
+	} else if err := os.WriteFile(inPath, file, 0o644); err != nil {
 		return harness.Failf("harness|c10|tmpdir", "%v", err), info
 	}
 	res := runTool(dir, binPath("mp4ff-crop"), "-d", fmt.Sprint(c.DurMS), inPath, outPath)
@@ -805,6 +833,28 @@ func genCrop(t *rapid.T) cropCase {
 		}
 	}
 	c.DurMS = genDur(t, &c)
+	// one case in ten: a sparse input of several GiB (needs moov in front of mdat and co64 everywhere)
+	if rapid.IntRange(0, 9).Draw(t, "sparseInput") == 0 {
+		c.Layout.MdatFirst = false
+		for i := range c.Layout.Tracks {
+			c.Layout.Tracks[i].Co64 = true
+		}
+		c.GapAtChunk = rapid.IntRange(0, len(c.Layout.ChunkOrder)).Draw(t, "gapAtChunk")
+		d := uint64(rapid.IntRange(0, 64).Draw(t, "gapDelta"))
+		switch rapid.IntRange(0, 3).Draw(t, "gapKind") {
+		case 0:
+			c.Gap = (1 << 32) - 2000 + d*40 // chunk offsets on both sides of 2^32
+		case 1:
+			c.Gap = (1 << 31) - 2000 + d*40
+		case 2:
+			c.Gap = (1 << 32) + uint64(rapid.Uint32().Draw(t, "gapBeyond"))
+		default:
+			c.Gap = 1 + d
+		}
+		if c.Gap+8+1<<20 > 0xffffffff {
+			c.Layout.MdatLarge = true // the payload needs the 64-bit size field
+		}
+	}
 	return c
 }
 
